@@ -66,6 +66,28 @@ def scenario_for(inp, obname, out):
                       [BIND_OK, {'replies': [], 'shutdown_read_after': True}])
         return ('write-failure-does-not-fail-pending', 'after a failed write the driver keeps running and an operation already waiting for its reply never completes',
                 case, lambda v: (f"pending op: {json.dumps(step(v, 'join'))}, driver: {step(v, 'driver')}" if step(v, 'join') == 'hang' or step(v, 'driver') == 'running' else None))
+    if ev == 'resp' and ('keeps serving' in obname or 'matching no outstanding operation' in obname or 'disturbs nothing' in obname):
+        # a response nobody waits for (late reply to a timed-out operation / unknown ID / unsolicited notice), then a normal operation
+        stray = {'id': 77, 'op': okres(11, 1)} if 'after delivering' not in obname else None
+        if stray is not None:
+            notice = {'id': 0, 'op': {'cl': 1, 'id': 24, 'c': [{'cl': 0, 'id': 10, 'p': [52]}, {'cl': 0, 'id': 4, 'p': []}, {'cl': 0, 'id': 4, 'p': list(b'bye')}]}}
+            case = script([BIND, {'do': 'spawn_delete', 'dn': 'dc=pending'}, {'do': 'join'}, {'do': 'delete', 'dn': 'dc=after'}, {'do': 'driver'}],
+                          [BIND_OK, {'replies': [stray, notice, {'id': 'req', 'op': okres(11, 3)}]}, {'replies': [{'id': 'req', 'op': okres(11, 4)}]}])
+            def pred(v):
+                j, dl = step(v, 'join'), step(v, 'delete')
+                if not (isinstance(j, dict) and j.get('ok', {}).get('rc') == 3): return f'a pending operation got {json.dumps(j)[:90]} instead of its own result (rc 3) after a stray response and an unsolicited notice'
+                if not (isinstance(dl, dict) and dl.get('ok', {}).get('rc') == 4): return f'a later operation got {json.dumps(dl)[:90]} (driver: {step(v, "driver")})'
+                return None
+            return ('stray-response-disturbs-connection', 'a response matching no outstanding operation disturbs the connection or another operation', case, pred)
+    if ev in ('resp-eof', 'resp-err') and 'driver finishes' in obname:
+        idle = not inp.get('result_ids') and not inp.get('search_ids')
+        if idle:
+            case = script([BIND, {'do': 'sleep', 'ms': 150}, {'do': 'driver'}, {'do': 'is_closed'}, {'do': 'delete', 'dn': 'dc=later'}], [dict(BIND_OK, close_after=True)])
+            return ('idle-connection-loss-unnoticed', 'the server closing an idle connection goes unnoticed: the driver keeps running and later operations do not fail immediately',
+                    case, lambda v: (f"driver: {step(v, 'driver')}, is_closed: {step(v, 'is_closed')}, later delete: {json.dumps(step(v, 'delete'))[:60]}" if step(v, 'driver') == 'running' or step(v, 'delete') == 'hang' else None))
+        case = script([BIND, {'do': 'spawn_delete', 'dn': 'dc=pending'}, {'do': 'join'}, {'do': 'driver'}], [BIND_OK, {'replies': [], 'close_after': True}])
+        return ('connection-loss-does-not-fail-pending', 'the server closing the connection does not fail an operation waiting for its reply',
+                case, lambda v: (f"pending op: {json.dumps(step(v, 'join'))[:80]}, driver: {step(v, 'driver')}" if step(v, 'join') == 'hang' or step(v, 'driver') == 'running' else None))
     if ev == 'all-closed':
         case = script([BIND, {'do': 'drop_handles'}], [BIND_OK])
         return ('driver-survives-last-handle', 'the driver does not finish (and the transport stays open) after the last handle was dropped',
